@@ -175,6 +175,8 @@ def run(repo, tier):
     gaussian_rules(repo, res)
     run_axis(repo, res, MODS)
     a1_collect(repo, res, modules={'photutils.centroids.core', 'photutils.centroids.gaussian'})
+    from .common import run_nonfinite
+    run_nonfinite(repo, res, MODS)
     res.floor('loops-examined', 3)
     res.floor('LP4', 5)
     res.floor('SPEC', 8)
